@@ -451,10 +451,20 @@ def _dec_parts_tables(f, rule):
     need(fn in f.thir, rule, fn)
     res = {}
     m = None
-    for x in T.exprs(f.thir[fn]["body"], "Match"):
-        s = T.strip(x["scrut"])
-        if s.get("k") == "Var" and str(s.get("ty", "")).endswith("EncodationType"):
-            m = x
+    # the dispatch on the mode: in decode_parts itself or in a private helper of the module it delegates the loop body to
+    bodies = [f.thir[fn]["body"]]
+    for c in T.calls(f.thir[fn]["body"]):
+        cc = T.canon(T.callee_of(c))
+        if cc.startswith("decodation::") and cc not in ("decodation::decode_ascii", "decodation::decode_base256", "decodation::decode_x12", "decodation::decode_edifact",
+                                                       "decodation::decode_c40_like") and "::Reader" not in cc and "eci" not in cc:
+            for n2, b2 in f.thir.items():
+                if T.canon(n2) == cc:
+                    bodies.append(b2["body"])
+    for body_ in bodies:
+        for x in T.exprs(body_, "Match"):
+            s = T.strip(x["scrut"])
+            if s.get("k") == "Var" and str(s.get("ty", "")).endswith("EncodationType") and m is None:
+                m = x
     need(m, rule, fn, "(match on mode)")
     rows, rest = T.enum_match_table(m, MODES)
     for vs, body, arm in rows:
